@@ -176,6 +176,19 @@ def nt(labels):
     return "nt" in labels
 
 
+EVEN_MAX_BASE_STATES = 150
+
+
+def even_automaton(S, ctx, base, shortlex):
+    """CoxeterGroup.automaton(even_length=True), or None when the base automaton has more
+    than 150 states: FSA.automaton_multiple re-queues a vertex once per incoming two-step
+    path, which took 9 s at 375 states and minutes at 1181 (a cost guard, counted in the labels)"""
+    if len(list(base.vertices())) > EVEN_MAX_BASE_STATES:
+        ctx.label("even-automaton-skipped(base>150 states)")
+        return None
+    return S.G.automaton(shortlex=shortlex, even_length=True)
+
+
 def accepts(aut, word):
     """FSA.accepts; FSAException never escapes accepts() by contract"""
     r = aut.accepts(word)
@@ -487,7 +500,9 @@ def even_body(part):
             return [ws[i] + ws[i + 1] for i in range(0, len(ws), 2)]
         for shortlex in (True, False):
             base = S.G.automaton(shortlex=shortlex)
-            ev = S.G.automaton(shortlex=shortlex, even_length=True)
+            ev = even_automaton(S, ctx, base, shortlex)
+            if ev is None:
+                continue
             tag = "shortlex" if shortlex else "geodesic"
             if part == "language":
                 want = collections.Counter()
@@ -586,7 +601,7 @@ def body_growth(case, ctx):
     spheres = S.tits.ball(L)
     sl = S.G.automaton(shortlex=True)
     geo = S.G.automaton(shortlex=False)
-    ev = S.G.automaton(shortlex=True, even_length=True)
+    ev = even_automaton(S, ctx, sl, True)
     sizes = [len(s) for s in spheres]
     got = [sum(1 for _ in sl.enumerate_fixed_length_paths(k)) for k in range(L + 1)]
     ctx.check(got == sizes, "number of accepted shortlex words per length = growth series",
@@ -595,9 +610,10 @@ def body_growth(case, ctx):
     gotg = [sum(1 for _ in geo.enumerate_fixed_length_paths(k)) for k in range(L + 1)]
     ctx.check(gotg == nred, "number of accepted geodesic words per length = number of reduced "
               "words", got=gotg, want=nred, matrix=S.m)
-    gote = [sum(1 for _ in ev.enumerate_fixed_length_paths(k)) for k in range(L // 2 + 1)]
-    ctx.check(gote == sizes[0::2][:len(gote)], "even automaton counts the even spheres", got=gote,
-              want=sizes[0::2])
+    if ev is not None:
+        gote = [sum(1 for _ in ev.enumerate_fixed_length_paths(k)) for k in range(L // 2 + 1)]
+        ctx.check(gote == sizes[0::2][:len(gote)], "even automaton counts the even spheres",
+                  got=gote, want=sizes[0::2])
     # counting by dynamic programming over the transition table (no enumeration), further out
     far = L + 6
     cnt = collections.Counter({sl.start_vertices[0]: 1})
@@ -698,7 +714,7 @@ def body_long(case, ctx):
     R = T.RootOracle(S.m, exact=True)
     sl = S.G.automaton(shortlex=True)
     geo = S.G.automaton(shortlex=False)
-    ev = S.G.automaton(shortlex=True, even_length=True)
+    ev = even_automaton(S, ctx, sl, True)
     longest = 0
     # (a) random walks in the automata: accepted words must be reduced / least
     for aut, is_sl in ((sl, True), (geo, False)):
@@ -740,7 +756,7 @@ def body_long(case, ctx):
         ctx.label("grown-word-not-least")
         ctx.check(not accepts(sl, S.w(u)), "shortlex automaton accepts a reduced word that is not "
                   "the least expression", word=S.w(u), least=S.w(least), matrix=S.m)
-    if len(least) % 2 == 0 and least:
+    if len(least) % 2 == 0 and least and ev is not None:
         ws = S.w(least)
         ctx.check(accepts(ev, [ws[i] + ws[i + 1] for i in range(0, len(ws), 2)]),
                   "even-length automaton rejects an even-length shortlex word")
